@@ -3,7 +3,7 @@ from __future__ import annotations
 
 import ast
 
-from sa.astx import call_name, src, walk_local
+from sa.astx import call_name, dotted, src, walk_local
 from sa.selftest import Mutant, Silent
 from sa.source import AnalysisError
 
@@ -62,9 +62,10 @@ def _json(ctx):
     for n in du:
         c = next(x for x in walk_local(gj.node(n).ast) if isinstance(x, ast.Call) and call_name(x) in ("dumps", "json.dumps"))
         kws = {k.arg: k.value for k in c.keywords}
-        ctx.check(len(c.args) >= 1 and src(c.args[0]) == ev and "default" in kws, "json/dumps-arguments", ctx.construct("twisted.logger._json.eventAsJSON", c),
-                  "dumps does not serialise the flattened event with the fallback encoder")
-        _kwargs_total(ctx, "twisted.logger._json.eventAsJSON", c, _DUMPS_OK, _DUMPS_BAD, required={"skipkeys": True})
+        ctx.check(len(c.args) >= 1 and src(c.args[0]) == ev and _default_hook(ctx.mod(JSON), ej, c) is not None, "json/dumps-arguments",
+                  "twisted.logger._json.eventAsJSON | dumps(event, <fallback encoder>)", "dumps does not serialise the flattened event with the fallback encoder")
+        _kwargs_total(ctx, "twisted.logger._json.eventAsJSON", c, _DUMPS_OK, _DUMPS_BAD, required={"skipkeys": True},
+                      hook_ok=_default_hook(ctx.mod(JSON), ej, c) is not None)
     lj = ctx.func(JSON, "eventFromJSON")
     lo = [c for c in ast.walk(lj) if isinstance(c, ast.Call) and call_name(c) in ("loads", "json.loads")]
     ctx.check(len(lo) == 1 and src(lo[0].args[0]) == lj.args.args[0].arg, "json/loads", "twisted.logger._json.eventFromJSON",
@@ -100,7 +101,25 @@ _LOADS_OK = {"object_hook", "strict"}
 _LOADS_BAD = {"parse_float": None, "parse_int": None, "parse_constant": None, "object_pairs_hook": None}
 
 
-def _kwargs_total(ctx, qual, call, ok, bad, required):
+def _default_hook(js, owner, call):
+    """The function json applies to objects it cannot encode: `default=<fn>` (nested in ``owner`` or module-level) or the `default`
+    method of a module class derived from JSONEncoder passed as `cls=`.  -> (FunctionDef, index of the object parameter) or None."""
+    kws = {k.arg: k.value for k in call.keywords}
+    d = kws.get("default")
+    if isinstance(d, ast.Name):
+        fn = next((n for n in ast.walk(owner) if isinstance(n, ast.FunctionDef) and n.name == d.id), None) or js.find(d.id)
+        return (fn, 0) if isinstance(fn, ast.FunctionDef) else None
+    c = kws.get("cls")
+    if isinstance(c, ast.Name):
+        cls = js.find(c.id)
+        if isinstance(cls, ast.ClassDef) and any((dotted(b) or "").split(".")[-1] == "JSONEncoder" for b in cls.bases):
+            fn = next((n for n in cls.body if isinstance(n, ast.FunctionDef) and n.name == "default"), None)
+            if fn is not None and len(fn.args.args) >= 2:
+                return fn, 1
+    return None
+
+
+def _kwargs_total(ctx, qual, call, ok, bad, required, hook_ok=False):
     for k in call.keywords:
         if k.arg is None:
             raise AnalysisError(f"{qual}: **kwargs in {src(call)[:60]}")
@@ -108,7 +127,7 @@ def _kwargs_total(ctx, qual, call, ok, bad, required):
         if k.arg in required:
             v = k.value.value if isinstance(k.value, ast.Constant) else "?"
             ctx.check(v == required[k.arg], "json/serialisation-total", c, f"{k.arg}={src(k.value)}: events with keys json cannot encode make serialisation raise")
-        elif k.arg in ok:
+        elif k.arg in ok or (k.arg == "cls" and hook_ok):
             ctx.ok("json/serialisation-total", c)
         elif k.arg in bad:
             harmless = bad[k.arg] is not None and isinstance(k.value, ast.Constant) and k.value.value == bad[k.arg]
@@ -348,11 +367,10 @@ def _encoder_total(ctx):
     ej = ctx.func(JSON, "eventAsJSON")
     dcalls = [c for c in ast.walk(ej) if isinstance(c, ast.Call) and call_name(c) in ("dumps", "json.dumps")]
     ctx.need(len(dcalls) == 1, "the dumps(...) call of eventAsJSON")
-    dk = {k.arg: k.value for k in dcalls[0].keywords}.get("default")
-    ctx.need(isinstance(dk, ast.Name), "default=<function> argument of dumps")
-    dflt = next((n for n in ast.walk(ej) if isinstance(n, ast.FunctionDef) and n.name == dk.id), None) or js.find(dk.id)
-    ctx.need(isinstance(dflt, ast.FunctionDef), f"definition of the fallback encoder {dk.id}")
-    an.analyse(JSON, dflt, {dflt.args.args[0].arg: HOSTILE}, "none")
+    hook = _default_hook(js, ej, dcalls[0])
+    ctx.need(hook is not None, "fallback encoder (default=<function> or cls=<JSONEncoder subclass with default()>) of dumps")
+    dflt, pi = hook
+    an.analyse(JSON, dflt, {dflt.args.args[pi].arg: HOSTILE}, "none")
     flagged = set()
     for st in sorted(an.sites.values(), key=lambda x: (x.node.lineno, x.op)):
         if st.level == "all":
@@ -602,6 +620,18 @@ def _memo(keyexpr):
             "            lookedUp[memoKey] = fieldValue\n\n" + _CONV_FIXED + "\n")
 
 
+# round-3 shape: the fallback encoder as a JSONEncoder subclass passed with cls=
+_ENC_IMPORT = (JSON, "from json import dumps, loads\n", "from json import JSONEncoder, dumps, loads\n")
+_ENC_CALL = (JSON, "    return dumps(event, default=default, skipkeys=True)", "    return dumps(event, cls=_Fallback, skipkeys=True)")
+
+
+def _enc_class(codec):
+    return (JSON, "def eventAsJSON(event: LogEvent) -> str:\n", "class _Fallback(JSONEncoder):\n    def default(self, o):\n        if isinstance(o, bytes):\n"
+            f"            return o.decode(\"{codec}\")\n        return objectSaveHook(o)\n\n\ndef eventAsJSON(event: LogEvent) -> str:\n")
+
+
+_READER_OLD = "        s.append(literalText)\n\n        if fieldName is not None:\n            key = keyFlattener.flatKey(fieldName, formatSpec, conversion or \"s\")\n            s.append(str(fieldValues[key]))\n"
+
 MUTANTS = [
     Mutant("reader-default-conversion-empty", FLAT, "conversion or \"s\")", "conversion or \"\")", expect_rule="roundtrip/concrete-family"),
     Mutant("revert-F56a-ascii-conversion-kept", FLAT, "        if conversion not in (\"r\", \"a\"):\n            conversion = \"s\"\n", "        if conversion != \"r\":\n            conversion = \"s\"\n",
@@ -639,6 +669,10 @@ MUTANTS = [
     Mutant("call-wrapper-str-is-repr", FMT, "    def __str__(self) -> str:\n        return str(self._wrapped)\n", "    def __str__(self) -> str:\n        return repr(self._wrapped)\n",
            expect_rule="roundtrip/concrete-family"),
     Mutant("keycall-calls-before-lookup-strip", FMT, "    realKey = key[:-2] if callit else key\n", "    realKey = key[:-1] if callit else key\n", expect_rule="roundtrip/concrete-family"),
+    Mutant("encoder-class-decodes-bytes-as-utf8", JSON, _ENC_CALL[1], _ENC_CALL[2], more=[_ENC_IMPORT, _enc_class("utf-8")], expect_rule="json/encoder-total"),
+    Mutant("reader-extends-with-field-first", FLAT, _READER_OLD,
+           "        if fieldName is None:\n            s.append(literalText)\n        else:\n            s += (str(fieldValues[keyFlattener.flatKey(fieldName, formatSpec, conversion or \"s\")]), literalText)\n",
+           expect_rule="roundtrip/concrete-family"),
     Mutant("json-without-flatten", JSON, "    flattenEvent(event)\n    return dumps(", "    return dumps(", expect_rule="json/flatten-before-dumps"),
     Mutant("reader-joins-with-space", FLAT, "    return \"\".join(s)", "    return \" \".join(s)", expect_rule="roundtrip/concrete-family"),
     Mutant("reader-field-before-literal", FLAT, "        s.append(literalText)\n\n        if fieldName is not None:\n            key = keyFlattener.flatKey(fieldName, formatSpec, conversion or \"s\")\n            s.append(str(fieldValues[key]))\n",
@@ -674,5 +708,8 @@ SILENT = [
            "        if predicate(pythonObject):\n            break\n    else:\n        return {\"unpersistable\": True}\n    result = saver(pythonObject)\n    result[\"__class_uuid__\"] = str(uuid)\n    return result\n"),
     Silent("fallback-encoder-as-conditional-expression", JSON, "        if isinstance(unencodable, bytes):\n            return unencodable.decode(\"charmap\")\n        return objectSaveHook(unencodable)\n",
            "        return unencodable.decode(\"charmap\") if isinstance(unencodable, bytes) else objectSaveHook(unencodable)\n"),
+    Silent("fallback-encoder-as-jsonencoder-subclass", JSON, _ENC_CALL[1], _ENC_CALL[2], more=[_ENC_IMPORT, _enc_class("charmap")]),
+    Silent("reader-extends-list-with-a-tuple", FLAT, _READER_OLD,
+           "        if fieldName is None:\n            s.append(literalText)\n        else:\n            s += (literalText, str(fieldValues[keyFlattener.flatKey(fieldName, formatSpec, conversion or \"s\")]))\n"),
     Silent("json-local-for-text", JSON, "    flattenEvent(event)\n    return dumps(event, default=default, skipkeys=True)", "    flattenEvent(event)\n    text = dumps(event, default=default, skipkeys=True)\n    return text"),
 ]
